@@ -184,6 +184,10 @@ fn run_script(peers: &[PeerCfg], mandatory: bool, script: &[Ev]) -> world::World
     let ctx = Context::new().expect("context");
     let r = stack::mk(&ctx, SocketType::Router, &[(o::RCVTIMEO, 30), (o::SNDTIMEO, 100), (o::LINGER, 0)]).await;
     r.set_option(o::ROUTER_MANDATORY, mandatory as i32).await.unwrap();
+    // the ROUTER under test announces an identity of its own so that ROUTER peers can address it
+    if peers.iter().any(|p| p.kind == PeerKind::Router) {
+      r.set_option(o::ROUTING_ID, &b"RUT"[..]).await.unwrap();
+    }
     let n = peers.len();
     let mut socks: Vec<Option<Socket>> = (0..n).map(|_| None).collect();
     let mut links: Vec<Option<Link>> = (0..n).map(|_| None).collect();
@@ -244,8 +248,12 @@ fn run_script(peers: &[PeerCfg], mandatory: bool, script: &[Ev]) -> world::World
                 s.send(msg(&frames[0], false)).await
               }
               PeerKind::Router => {
-                // a ROUTER peer addresses us by our identity as it sees it: anonymous -> skip
-                Err(ZmqError::UnsupportedFeature("router peer send not scripted"))
+                // a ROUTER peer addresses us by the identity we announced; no delimiter is added or
+                // removed between two ROUTERs, so every payload frame (leading empty ones too) must arrive
+                let nfr = frames.len();
+                let mut out = vec![msg(b"RUT", true)];
+                out.extend(frames.iter().enumerate().map(|(i, f)| msg(f, i + 1 < nfr)));
+                s.send_multipart(out).await
               }
               PeerKind::Dealer => {
                 let nfr = frames.len();
@@ -425,6 +433,7 @@ fn peer_sets(tier: Tier) -> Vec<Vec<PeerCfg>> {
     vec![d(Some(b"A")), d(None)],
     vec![d(Some(b"A")), d(Some(b"A"))],
     vec![PeerCfg { kind: PeerKind::Req, id: Some(b"Q".to_vec()) }, d(Some(b"B"))],
+    vec![PeerCfg { kind: PeerKind::Router, id: Some(b"R2".to_vec()) }],
   ];
   if tier == Tier::Thorough {
     v.push(vec![d(None), d(None)]);
